@@ -336,6 +336,50 @@ def seqPlace (vr : VR) (cs : List Constraint) (m : Machine)
       let p ← seqLoop vr' chips order 0 m' fixed
       finalise subs p
 
+/-! ### hilbert.py -/
+
+/-- `HilbertState` -/
+structure HS where
+  x : Int
+  y : Int
+  dx : Int
+  dy : Int
+  deriving Repr
+
+/-- the recursive part of the generator `hilbert(level, angle, s)` (`s` given): the points yielded,
+in order, and the state left behind -/
+def hilbertGen : Nat → Int → HS → List (Int × Int) × HS
+  | 0, _, s => ([], s)
+  | n + 1, a, s =>
+    let s := { s with dx := s.dy * -a, dy := s.dx * a }        -- turn left
+    let (l1, s) := hilbertGen n (-a) s                         -- recurse negative
+    let s := { s with x := s.x + s.dx, y := s.y + s.dy }       -- move forward
+    let p1 := (s.x, s.y)
+    let s := { s with dx := s.dy * a, dy := s.dx * -a }        -- turn right
+    let (l2, s) := hilbertGen n a s                            -- recurse positive
+    let s := { s with x := s.x + s.dx, y := s.y + s.dy }       -- move forward
+    let p2 := (s.x, s.y)
+    let (l3, s) := hilbertGen n a s                            -- recurse positive
+    let s := { s with dx := s.dy * a, dy := s.dx * -a }        -- turn right
+    let s := { s with x := s.x + s.dx, y := s.y + s.dy }       -- move forward
+    let p3 := (s.x, s.y)
+    let (l4, s) := hilbertGen n (-a) s                         -- recurse negative
+    let s := { s with dx := s.dy * -a, dy := s.dx * a }        -- turn left
+    (l1 ++ p1 :: l2 ++ p2 :: l3 ++ p3 :: l4, s)
+
+/-- `hilbert(level)`: the first position, then the L-system -/
+def hilbertPts (level : Nat) : List (Int × Int) :=
+  (0, 0) :: (hilbertGen level 1 { x := 0, y := 0, dx := 1, dy := 0 }).1
+
+/-- `int(ceil(log(n, 2.0))) if n >= 1 else 0` (exact: least `L` with `n ≤ 2^L`) -/
+def clog2 (n : Nat) : Nat := if n ≤ 1 then 0 else Nat.log2 (n - 1) + 1
+
+/-- `hilbert_chip_order(machine)` as the sequential placer sees it (a point with a negative
+coordinate is no chip of any machine; the curve has none) -/
+def hilbertChips (w h : Nat) : List Chip :=
+  (hilbertPts (clog2 (max w h))).filterMap fun q =>
+    if 0 ≤ q.1 ∧ 0 ≤ q.2 then some (q.1.toNat, q.2.toNat) else none
+
 /-! ### rand.py -/
 
 /-- the placement loop; one oracle element (the chip returned by `random.sample`) is consumed
@@ -459,9 +503,12 @@ def swap (vr : VR) (s : SA) (vas : List Vtx) (a : Chip) (vbs : List Vtx) (b : Ch
   let m2 ← (m1.set b rb).elim (.error .indexError) pure
   pure { m := m2, p := p, l2v := aset (aset s.l2v a la) b lb }
 
-/-- one `_step` given the drawn vertex, the drawn destination (≠ source) and the final accept
-decision; returns the new state and whether the swap was possible at all -/
+/-- one `_step` given the drawn vertex (one of the movable vertices: a fixed vertex is not a
+possible draw), the drawn destination (≠ source) and the final accept decision; returns the new
+state and whether the swap was possible at all -/
 def saStep (vr : VR) (fixed : List Vtx) (s : SA) (src : Vtx) (dst : Chip) (accept : Bool) : M (SA × Bool) :=
+  -- `random.choice(vertices)`: `vertices` is the kernel's list of *movable* vertices
+  if src ∈ fixed then .error .badOracle else
   match aget s.p src with
   | none => .error .keyError
   | some srcLoc =>
@@ -686,6 +733,13 @@ def handle (op : String) (j : Json) : R Json := do
     let subs ← (← arr j "subs").mapM (fun a => do (← asArr a).mapM vtxOfJson)
     let p ← placementOfJson (← field j "p")
     pure (resultJson placementToJson (finalise subs p))
+  | "hilbert" =>
+    -- the points of `hilbert(level)` / the chip order for a w x h machine
+    match ← opt j "level" asNat with
+    | some l => pure (jList ((hilbertPts l).map fun q => jPair (jInt q.1) (jInt q.2)))
+    | none => pure (Json.mkObj [("level", jNat (clog2 (max m.w m.h))),
+                                ("order", jList ((hilbertChips m.w m.h).map chipToJson))])
+  | "hilbert_level" => pure (jNat (clog2 (max m.w m.h)))
   | "valid" =>
     let p ← placementOfJson (← field j "p")
     match checkPlacement vr cs m p with
